@@ -16,6 +16,7 @@ func init() {
 			"ERR-STICKY: that field is never overwritten once it holds a failure (a consumer that asks again after `false` cannot clear it)",
 			"ERR-LOOP: every consumer loop of the decoded stream asks Err() before reporting success",
 			"the merge-iterator rules of C04 (records of several decoded streams are handed on without loss) and ERR-CHAIN of the metric wrappers (a decode fault travels up through every Err())",
+			"PV-ONCE groupEntries (decoded records are kept on the way out)",
 		},
 		NotDecided: []string{"that io.ReadFull/io.CopyN/time.Parse meet their documented contracts", "nanosecond exactness of pcommon.NewTimestampFromTime", "frames larger than memory"},
 		Rules: func(r *Run) {
